@@ -36,6 +36,12 @@ class C15(Prop):
     assumptions = ["K is 128 bits (aes.NewCipher would also accept 24/32-octet keys; never generated)",
                    "callers pass output buffers of the documented sizes (RES 8, CK/IK 16, AK 6, AUTN 16, AUTS 14, SQN 6)"]
 
+    partial_note = ("proved for every 128-bit K/OPc/RAND, 48-bit SQN, 16-bit AMF and every kernel cipher mapping 16-octet blocks "
+                    "to 16-octet blocks; argument slices of other lengths and nil/odd-sized output buffers are covered by the "
+                    "model/implementation correspondence only")
+    level_text = ("Lean theorems for all inputs, parametric in AES: f1,f1*,f2..f5*,OPc = TS 35.206; Milenage_check = 0 iff "
+                  "MAC-A exact and SQN fresh; generate/check inverse; resynchronisation token accepted and yields the UE's SQN")
+
     SIZES = {"mil_f1": [16, 16, 16, 6, 2], "mil_f2345": [16, 16, 16], "mil_opc": [16, 16],
              "mil_gen": [16, 2, 16, 6, 16], "mil_check": [16, 16, 6, 16, 16], "mil_auts": [16, 16, 16, 14],
              "mil_ts19": [16, 16, 6, 2, 16]}
